@@ -8,6 +8,7 @@ import (
 	"encoding/json"
 	"errors"
 	"fmt"
+	"math"
 	"net/http"
 	"reflect"
 	"strings"
@@ -494,6 +495,30 @@ func (s *Svc) RevSub(ctx context.Context, tok string) (string, error) {
 	return fmt.Sprintf("got %d", n), nil
 }
 
+// RevSubN subscribes to the calling client's RSubN stream and reports how many values arrived and whether
+// they were 0,1,2,... in order: "got <k> ordered=<bool>".
+func (s *Svc) RevSubN(ctx context.Context, tok string, n int, everyMs int, lingerMs int) (string, error) {
+	r, _ := s.enter(ctx, "RevSubN", tok)
+	defer s.exit(ctx, r)
+	rc, ok := jsonrpc.ExtractReverseClient[RevAPI](ctx)
+	if !ok {
+		return "NOREV", nil
+	}
+	ch, err := rc.RSubN(ctx, tok, n, everyMs, lingerMs)
+	if err != nil {
+		return "", err
+	}
+	k, ordered := 0, true
+	for v := range ch {
+		if v != k {
+			ordered = false
+		}
+		k++
+		atomic.AddInt64(&r.Sent, 1) // values received so far, readable through Get(tok).Sent
+	}
+	return fmt.Sprintf("got %d ordered=%v", k, ordered), nil
+}
+
 // RevN is a notification whose handler makes k reverse calls (outcome recorded in Note).
 func (s *Svc) RevN(ctx context.Context, tok string, k int) error {
 	r, _ := s.enter(ctx, "RevN", tok)
@@ -567,6 +592,7 @@ type RevAPI struct {
 	NotePingNC func(tok string) error `notify:"true" rpc_method:"R.NotePing"`
 	RSub       func(ctx context.Context, tok string) (<-chan int, error)
 	RBig       func(ctx context.Context, tok string, n int) (string, error)
+	RSubN      func(ctx context.Context, tok string, n int, everyMs int, lingerMs int) (<-chan int, error)
 	// retry-tagged reverse methods
 	IdentR func(ctx context.Context, tok string) (string, error) `retry:"true" rpc_method:"R.Ident"`
 	RHoldR func(ctx context.Context, tok string) (string, error) `retry:"true" rpc_method:"R.RHold"`
@@ -650,6 +676,8 @@ type Client struct {
 	React           func(ctx context.Context, tok string, delayMs int, size int) (string, error)
 	ReactN          func(ctx context.Context, tok string, delayMs int) error `notify:"true"`
 	SubInt          func(ctx context.Context, tok string, n int, mode int) (<-chan int, error)
+	SubFloat        func(ctx context.Context, tok string, n int, nanAt int) (<-chan float64, error)
+	RevSubN         func(ctx context.Context, tok string, n int, everyMs int, lingerMs int) (string, error)
 	SubStr          func(ctx context.Context, tok string, n int, mode int) (<-chan string, error)
 	SubBytes        func(ctx context.Context, tok string, n int, mode int) (<-chan []byte, error)
 	SubPtr          func(ctx context.Context, tok string, n int, mode int) (<-chan *Item, error)
@@ -667,6 +695,35 @@ func (h *RevHandler) RSub(ctx context.Context, tok string) (<-chan int, error) {
 	ch <- 1
 	ch <- 2
 	close(ch)
+	return ch, nil
+}
+
+// RSubN is a client-side stream: n values, one every everyMs milliseconds; when its context is cancelled it
+// lingers lingerMs before closing its channel (a handler that is slow to notice).
+func (h *RevHandler) RSubN(ctx context.Context, tok string, n int, everyMs int, lingerMs int) (<-chan int, error) {
+	r, _ := h.S.enter(ctx, "RSubN", tok)
+	defer h.S.exit(ctx, r)
+	ch := make(chan int)
+	go func() {
+		defer close(ch)
+		for i := 0; i < n; i++ {
+			select {
+			case ch <- i:
+				atomic.AddInt64(&r.Sent, 1)
+			case <-ctx.Done():
+				time.Sleep(time.Duration(lingerMs) * time.Millisecond)
+				return
+			}
+			if everyMs > 0 {
+				select {
+				case <-time.After(time.Duration(everyMs) * time.Millisecond):
+				case <-ctx.Done():
+					time.Sleep(time.Duration(lingerMs) * time.Millisecond)
+					return
+				}
+			}
+		}
+	}()
 	return ch, nil
 }
 
@@ -762,6 +819,16 @@ func typed[T any](s *Svc, ctx context.Context, method, tok string, n, mode int, 
 
 func (s *Svc) SubInt(ctx context.Context, tok string, n int, mode int) (<-chan int, error) {
 	return typed(s, ctx, "SubInt", tok, n, mode, func(i int) int { return i })
+}
+
+// SubFloat streams 0..n-1 as float64; the value at index nanAt is NaN, which encoding/json cannot encode.
+func (s *Svc) SubFloat(ctx context.Context, tok string, n int, nanAt int) (<-chan float64, error) {
+	return typed(s, ctx, "SubFloat", tok, n, SGoroutine, func(i int) float64 {
+		if i == nanAt {
+			return math.NaN()
+		}
+		return float64(i)
+	})
 }
 func (s *Svc) SubStr(ctx context.Context, tok string, n int, mode int) (<-chan string, error) {
 	return typed(s, ctx, "SubStr", tok, n, mode, func(i int) string { return fmt.Sprintf("%s:%d", tok, i) })
